@@ -248,7 +248,10 @@ class RepoMaterial:
             v = cimgen.value(rng, t, False, null=0.1)
             va = cimgen.value(rng, t, True, null=0.1,
                               nulls=rng.random() < 0.3)
-            if t == 'datetime' and rng.random() < 0.3:
+            if rng.random() < 0.08:
+                t = 'datetime'
+                v = None
+            if t == 'datetime' and (v is None or rng.random() < 0.3):
                 # python datetime/timedelta objects are accepted for datetime
                 import datetime as _dt
                 v = rng.choice([
@@ -264,6 +267,15 @@ class RepoMaterial:
             va = [p.copy() for p in pool[:2]]
             if va and rng.random() < 0.2:
                 va.insert(rng.randint(1, len(va)), None)   # NULL entry
+            if rng.random() < 0.25:
+                # class paths are references as well
+                cp = [CIMClassName('VF_Other', namespace=ns),
+                      CIMClassName('VF_Sub'),
+                      CIMClassName('VF_Other', namespace=ns, host='h.example')]
+                if rng.random() < 0.5:
+                    v = rng.choice(cp)
+                va = [rng.choice(cp) for _ in range(rng.choice([1, 2]))] + \
+                    (va if rng.random() < 0.3 else [])
             return self._shape('Echo_reference', obj, 'reference', v, va)
         if r < 0.9:
             v = CIMInstance('VF_Other', properties=[
